@@ -167,30 +167,45 @@ def run(ctx):
         ctx.ob("W2", root, "both-directions-pumped", loc(prog.body(root).sp), len(set(froms)) == 2, f"pump sources: {froms}", ordinal=False)
 
     # ---------------- W3 dial what was decoded ---------------------------------------------------------------
-    first = [b for b in bodies if "server::template::relay_to" in b.defp and any(c.name == "TcpStream::connect" for (_, c, _) in b.calls())]
+    # roles: the inbound message enum (a variant with (bytes, Address), a variant with bytes only); the first-item handler is the server
+    # code whose flat view binds the addressed variant's payload and dials TcpStream::connect
+    from .common import first_item_handlers, partial_key_caches
+    enum_it, addressed, first = first_item_handlers(prog)
+    if enum_it is None:
+        ctx.anchor_lost("W3", "inbound message enum (variant with (bytes, Address) and variant with bytes)")
     ctx.floor("W3", "server first-item handler", 1, len(first))
-    for b in first:
-        # bindings of the ConnectTcp pattern
-        binds = {}  # local -> field index
-        for blk in b.rpo():
-            for s in b.stmts(blk):
-                if s["k"] == "assign" and s["rv"]["k"] == "use":
-                    p = op_place(s["rv"]["op"])
-                    if p and any(e[0] == "downcast" and e[1] == "ConnectTcp" for e in p[1]):
-                        idx = [e[1] for e in p[1] if e[0] == "field"][-1]
-                        binds[s["p"][0]] = idx
-        ctx.floor("W3", "ConnectTcp pattern bindings", 2, len(binds))
-        for (blk, c, t) in b.calls():
+    for fb, binds in first:
+        ctx.floor("W3", "addressed-variant pattern bindings", 2, len(binds))
+        root = fb.root
+        for (blk, c, t) in fb.calls():
             if c.name == "TcpStream::connect":
                 p = op_place(t["args"][0])
-                locs, calls, _ = b.slice_back([p[0]]) if p else (set(), [], [])
-                ok = any(binds.get(l) == 1 for l in locs) and any(cc.method == "to_socket_addr" for (_, cc, _) in calls)
-                ctx.ob("W3", b.defp, "dial-decoded-address", loc(t["sp"]), ok, "connect() target derives from the ConnectTcp address through to_socket_addr" if ok else "connect() target does not derive from the decoded ConnectTcp address")
-            if c.target.endswith("relay_tcp_bidirectional"):
-                p = op_place(t["args"][-1])
-                locs, _, _ = b.slice_back([p[0]]) if p else (set(), 0, 0)
-                ok = any(binds.get(l) == 0 for l in locs)
-                ctx.ob("W3", b.defp, "first-payload-forwarded", loc(t["sp"]), ok, "the first payload handed to the relay is the one bound in the ConnectTcp pattern" if ok else "the relay's first item does not derive from the decoded first payload")
+                locs, calls, _ = fb.slice_back([p[0]]) if p else (set(), [], [])
+                src = {binds[l] for l in locs if l in binds and binds[l][1] == 1}
+                ok = bool(src)
+                ctx.ob("W3", root, "dial-decoded-address", loc(t["sp"]), ok,
+                       f"connect() target derives from the address bound in the {sorted(v for v, _ in src)} pattern" if ok else "connect() target does not derive from the decoded address of the first message")
+        # the first payload is forwarded: some send into the outbound sink takes an item that derives from the payload bound with the address
+        sends = [(blk, c, t) for (blk, c, t) in fb.calls() if c.name in ("SinkExt::send", "SinkExt::feed")]
+        for var in sorted({v for (v, i) in binds.values()}):
+            pay = {l for l, (v, i) in binds.items() if v == var and i == 0}
+            ok = False
+            for (blk, c, t) in sends:
+                p = op_place(t["args"][1]) if len(t["args"]) > 1 else None
+                if p is None:
+                    continue
+                locs, _, _ = fb.slice_back([p[0]])
+                if pay & locs:
+                    ok = True
+            ctx.ob("W3", root, f"first-payload-forwarded:{var}", loc(fb.sp), ok,
+                   f"the payload bound with the {var} address is sent on" if ok else f"the payload bound in the {var} pattern never reaches a send: the first bytes of the flow are dropped")
+    # a cache between the decoded address and the dial must be keyed by the whole address
+    pk = partial_key_caches(prog)
+    for (b, blk, t, mty, why, kind) in pk:
+        if kind == "udp":
+            continue          # a per-datagram cache is C02's business (U6)
+        ctx.ob("W3", b.defp, "address-cache-keyed-by-whole-address", loc(t["sp"]), False,
+               f"lookup in {mty[:80]}: {why}: a later flow to the same host on another port is dialled to the first flow's port")
     # codecs: the ConnectTcp address operand derives from this codec's decoded header
     for b in prog.methods_of_trait_impls("Decoder", "decode"):
         if not b.defp.startswith("octo_squirrel_server"):
